@@ -2,6 +2,7 @@ package queryer
 
 import (
 	"context"
+	"errors"
 	"fmt"
 	"net/http"
 
@@ -139,6 +140,10 @@ func (q *MultiOpQueryer) queryBatch(inputs []*requests.Request) ([]map[string]in
 			return nil, resp.Errors
 		}
 
+		if resp.Data == nil {
+			return nil, errors.New("response has neither data nor errors")
+		}
+
 		results[i] = resp.Data
 	}
 
@@ -161,6 +166,10 @@ func (q *MultiOpQueryer) queryBatch(inputs []*requests.Request) ([]map[string]in
 	for i, resp := range resps {
 		if len(resp.Errors) != 0 {
 			return nil, resp.Errors
+		}
+		// a well-formed answer carries data or says why it does not
+		if resp.Data == nil {
+			return nil, errors.New("response has neither data nor errors")
 		}
 		results[toFetchIndexes[i]] = resp.Data
 	}
